@@ -528,7 +528,7 @@ def run(ctx):
         "geometric volume average (emg3d uses the geometric one for linear "
         "and the arithmetic one for log mappings; the property does not fix "
         "this)")
-    cap = ctx.budget or (100 if ctx.quick else 1200)
+    cap = ctx.budget or (400 if ctx.quick else 2400)
     if ctx.wants('pairs3d'):
         ctx.explore('pairs3d', FN_3D, cases_pairs3d(ctx.tier), engine='E1',
                     rule='full product of selected 1-D (old, new) pairs in x,'
